@@ -182,6 +182,14 @@ def _act_str(a):
 ODD_NAMES = ["slot[1]", "slot1", "s*", "done?", "done!", "a.b", "a+b"]
 
 
+def _num(x):
+    """in the `int_numbers` mode whole numbers are handed over as Python ints (1 instead of 1.0): legal everywhere
+    a number is expected, and the same number"""
+    if CTX.scenario is not None and CTX.scenario.get("int_numbers") and isinstance(x, float) and x.is_integer() and abs(x) < 2.0 ** 50:
+        return int(x)
+    return x
+
+
 def _tname(i):
     if CTX.scenario.get("odd_names"):
         return ODD_NAMES[i] if i < len(ODD_NAMES) else "n%d#" % i
@@ -269,7 +277,7 @@ class ScriptedProtocol(IProtocol):
         k = a[0]
         p = self.provider
         if k == "settimer":
-            p.schedule_timer(_tname(a[1]), a[2])
+            p.schedule_timer(_tname(a[1]), _num(a[2]))
         elif k == "cancel":
             p.cancel_timer(_tname(a[1]))
         elif k == "send":
@@ -305,16 +313,16 @@ class ScriptedProtocol(IProtocol):
                 c.param_1, c.param_2, c.param_3 = a[1], a[2], a[3]
             p.send_mobility_command(c)
         elif k == "goto":
-            p.send_mobility_command(GotoCoordsMobilityCommand(a[1], a[2], a[3]))
+            p.send_mobility_command(GotoCoordsMobilityCommand(_num(a[1]), _num(a[2]), _num(a[3])))
         elif k == "gotogeo":
             p.send_mobility_command(GotoGeoCoordsMobilityCommand(a[1], a[2], a[3]))
         elif k == "speed":
-            p.send_mobility_command(SetSpeedMobilityCommand(a[1]))
+            p.send_mobility_command(SetSpeedMobilityCommand(_num(a[1])))
         elif k == "range":
             if self._controller is None or CTX.scenario.get("fresh_controllers"):
                 # (in that mode) a new controller object for every request, as code that builds one on the spot does
                 self._controller = CommunicationController(self)
-            self._controller.set_transmission_range(a[1])
+            self._controller.set_transmission_range(_num(a[1]))
         elif k == "flag":
             self.flag = bool(a[1])
         else:
@@ -512,7 +520,7 @@ def run_sim_impl(sc, variant=None):
     signal.setitimer(signal.ITIMER_REAL, sc.get("time_limit", 20.0))
     try:
         with _Quiet():
-            cfg = SimulationConfiguration(duration=sc["dur"], max_iterations=sc["maxit"],
+            cfg = SimulationConfiguration(duration=_num(sc["dur"]) if sc["dur"] is not None else None, max_iterations=sc["maxit"],
                                           execution_logging=variant.get("execution_logging", False),
                                           debug=variant.get("debug", False),
                                           profile=variant.get("profile", False),
@@ -525,11 +533,11 @@ def run_sim_impl(sc, variant=None):
                 if h == "T":
                     b.add_handler(TimerHandler())
                 elif h == "C":
-                    b.add_handler(CommunicationHandler(_shared_config(("med", rng, delay, fail), lambda: CommunicationMedium(
-                        transmission_range=rng, delay=delay, failure_rate=fail))))
+                    b.add_handler(CommunicationHandler(_shared_config(("med", rng, delay, fail, bool(sc.get("int_numbers"))), lambda: CommunicationMedium(
+                        transmission_range=_num(rng), delay=_num(delay), failure_rate=_num(fail)))))
                 elif h == "M":
-                    b.add_handler(MobilityHandler(_shared_config(("mob", rate, speed, tuple(ref)), lambda: MobilityConfiguration(
-                        update_rate=rate, default_speed=speed, reference_coordinates=tuple(ref)))))
+                    b.add_handler(MobilityHandler(_shared_config(("mob", rate, speed, tuple(ref), bool(sc.get("int_numbers"))), lambda: MobilityConfiguration(
+                        update_rate=_num(rate), default_speed=_num(speed), reference_coordinates=tuple(ref)))))
                 elif h == "A":
                     b.add_handler(AssertionHandler([make_assertion(i, s) for i, s in enumerate(sc["asserts"])]))
                 elif h.startswith("R"):
@@ -538,7 +546,7 @@ def run_sim_impl(sc, variant=None):
                     raise ValueError(h)
             ids = []
             for nd in sc["nodes"]:
-                ids.append(b.add_node(PROTO[nd["ty"]], tuple(nd["pos"])))
+                ids.append(b.add_node(PROTO[nd["ty"]], tuple(_num(float(v)) for v in nd["pos"])))
             if ids != list(range(len(ids))):
                 CTX.trace.append("ids %s" % ids)
             if sc.get("build_twice"):
